@@ -184,6 +184,8 @@ class Worker:
             dom = M.ole_vector_evidence(data)
             dom.update(M.pdf_cycle_evidence(data))
             return {"id": job.get("id"), "dom": dom, "ev": [], "size": len(data)}
+        if op == "sniff":
+            return self.run_sniff(job, data)
         if op == "clisub":
             return self.run_clisub(job, data)
         inject = None
@@ -257,6 +259,50 @@ class Worker:
             out["injected"] = rec.injected
         if op == "dry":
             out["targets"] = self.targets(rec.line_log)
+        return out
+
+    def sniffers(self):
+        """the image-dimension sniffers of the library, by name (binding: exit 2 if the shared ones vanish)."""
+        import importlib
+        X = "sharepoint2text.parsing.extractors."
+        iu = importlib.import_module(X + "util.image_utils")
+        out = []
+        for n in ("get_jpeg_dimensions", "detect_image_type", "wrap_dib_as_bmp"):
+            out.append((f"image_utils.{n}", getattr(iu, n)))
+        gid = iu.get_image_dimensions
+        for t in ("png", "jpeg", "jpg", "bmp", "gif"):
+            out.append((f"image_utils.get_image_dimensions[{t}]", (lambda d, _t=t: gid(d, _t))))
+        for m in ("ms_modern.docx_extractor", "ms_modern.pptx_extractor", "ms_modern.xlsx_extractor"):
+            f = getattr(importlib.import_module(X + m), "_get_image_pixel_dimensions", None)
+            if f is not None:
+                out.append((f"{m}._get_image_pixel_dimensions", f))
+        return out
+
+    def run_sniff(self, job, data):
+        """format A routed to function B, at the level of the image helpers: every sniffer on the image bytes."""
+        rec = self.rec
+        rec.set_line_events(False)
+        rec.begin()
+        rec.loop_bound = 256 * len(data) + (1 << 20)
+        out = {"id": job.get("id"), "sha": __import__("hashlib").sha256(data).hexdigest()[:16], "size": len(data),
+               "detail": []}
+        calls = []
+        try:
+            for name, f in self.sniffers():
+                try:
+                    f(data)
+                    calls.append([name, "ok"])
+                except Exception as e:                  # noqa: any Exception here is wrapped by the extractor above
+                    calls.append([name, type(e).__name__])
+        except BaseException as e:                      # noqa: LoopOverrun
+            calls.append(["-", type(e).__name__])
+        rec.end()
+        out["calls"] = calls
+        if rec.loop_over:
+            out["loop_over"] = list(rec.loop_over)
+            out["ev"] = [{"a": "LoopOverrun"}]
+        else:
+            out["ev"] = [{"a": "Helper", "n": len(calls)}]
         return out
 
     def run_clisub(self, job, data):
